@@ -641,9 +641,10 @@ static void make_file(vrng *r, int kind, uint32_t dict, unsigned nblocks, vbuf *
 		if (declared != dict && file->n > 12 + 8) {
 			// Block Header at offset 12: find the LZMA2 filter flags (ID 0x21, size 1) and rewrite the dictionary byte
 			size_t hs = ((size_t)file->p[12] + 1) * 4;
-			unsigned bits = 0; while ((1u << (bits + 1)) <= declared && bits < 31) ++bits;      // floor(log2)
+			unsigned bits = 0; while (bits < 31 && (UINT64_C(1) << (bits + 1)) <= declared) ++bits;      // floor(log2)
 			uint8_t code = (uint8_t)((bits - 11) * 2 - 2 + ((declared >> (bits - 1)) & 1 ? 1 : 0) + 0);
 			code = (uint8_t)((bits - 12) * 2 + (((declared >> (bits - 1)) & 1) ? 1 : 0));
+			if (declared == UINT32_MAX) code = 40;
 			for (size_t i = 14; i + 2 < 12 + hs - 4; ++i) if (file->p[i] == 0x21 && file->p[i + 1] == 0x01) { file->p[i + 2] = code; break; }
 			uint32_t crc = lzma_crc32(file->p + 12, hs - 4, 0);
 			for (int i = 0; i < 4; ++i) file->p[12 + hs - 4 + (size_t)i] = (uint8_t)(crc >> (8 * i));
@@ -701,7 +702,38 @@ static void c09_case(uint64_t idx)
 	hx_case_begin(idx);
 	char key[200];
 	unsigned which = vrng_below(&r, 10);
-	if (which < 6) {
+	if (which < 6 && vrng_chance(&r, 1, 12)) {
+		// ---- headers declaring 2 GiB .. 4 GiB - 1 (the format's maximum): never allocated here; every limit below
+		// the dictionary size must give LZMA_MEMLIMIT_ERROR, report at least the dictionary size, and no single
+		// allocation request may exceed the limit ----
+		static const uint32_t huge[] = { 0x80000000u, 0xC0000000u, 0xFFFFFFFFu, 0xFFFFFFFFu };
+		uint32_t dict = huge[vrng_below(&r, 4)];
+		int kind = vrng_chance(&r, 2, 3) ? 0 : 1;
+		vbuf file = {0}, pl = {0};
+		make_file(&r, kind, dict, 1, &file, &pl);
+		static const int dk_xz[] = { D_STREAM, D_STREAM_MT, D_AUTO };
+		int dk = kind == 0 ? dk_xz[vrng_below(&r, 3)] : (vrng_chance(&r, 1, 2) ? D_ALONE : D_AUTO);
+		static const uint64_t lims[] = { 1, 1u << 20, 64u << 20, 1u << 30, 0x7FFFFFFFu };
+		for (unsigned li = 0; li < 5; ++li) {
+			dec_spec sp; dec_spec_for(&sp, dk, NULL); sp.file_size = file.n; sp.threads = 1 + vrng_below(&r, 4);
+			sp.memlimit = lims[li];
+			if (dk == D_STREAM_MT) sp.memlimit_threading = vrng_chance(&r, 1, 2) ? lims[li] : UINT64_MAX;
+			alloc_mon m; alloc_mon_init(&m);
+			uint64_t allow = ALLOWANCE(dk == D_STREAM_MT ? sp.threads : 1);
+			m.huge_limit = lims[li] + allow;    // a request above this is refused by the allocator and counted
+			limited L; run_limited(&sp, &file, &m, &L, false);
+			hx_eval();
+			if (m.n_failed_huge) { snprintf(key, sizeof(key), "memlimit-exceeded|%s|declared-huge", d_names[dk]); hx_violation("C09", key, idx, "decoder asked the allocator for more than the limit %" PRIu64 " (+%" PRIu64 ") in one request; header declares a %u byte dictionary; status %s, lzma_memusage %" PRIu64, lims[li], allow, dict, lzma_ret_name(L.ret), L.reported); }
+			else if (L.peak > lims[li] + allow) { snprintf(key, sizeof(key), "memlimit-exceeded|%s|declared-huge", d_names[dk]); hx_violation("C09", key, idx, "peak %" PRIu64 " with limit %" PRIu64 "; declared dictionary %u", L.peak, lims[li], dict); }
+			else if (L.ret != LZMA_MEMLIMIT_ERROR) { snprintf(key, sizeof(key), "no-memlimit-error|%s|declared-huge", d_names[dk]); hx_violation("C09", key, idx, "limit %" PRIu64 " with a declared dictionary of %u bytes: decoder returned %s", lims[li], dict, lzma_ret_name(L.ret)); }
+			else if (L.reported < dict) { snprintf(key, sizeof(key), "memusage-below-need|%s|declared-huge", d_names[dk]); hx_violation("C09", key, idx, "after LZMA_MEMLIMIT_ERROR lzma_memusage() = %" PRIu64 " < declared dictionary %u", L.reported, dict); }
+			if (m.live_blocks) { snprintf(key, sizeof(key), "leak|%s", d_names[dk]); hx_violation("C09", key, idx, "%" PRIu64 " blocks allocated after lzma_end", m.live_blocks); }
+			vbuf_free(&L.out); alloc_mon_destroy(&m);
+		}
+		hx_count("declared_huge_dictionary_cases", 1);
+		hx_distinct(vhash(file.p, file.n, vhash(&dk, sizeof(dk), VHASH_INIT)), true);
+		vbuf_free(&file); vbuf_free(&pl);
+	} else if (which < 6) {
 		// ---- decoders under a memory limit ----
 		static const uint32_t dicts[] = { 4096, 8192, 65536, 1u << 20, 3u << 20, 8u << 20, 24u << 20, 64u << 20 };
 		uint32_t dict = dicts[vrng_below(&r, A.thorough ? 8 : 7)];
@@ -791,6 +823,23 @@ dec_spec spec; dec_spec_for(&spec, dk, NULL); spec.file_size = file.n;
 		lzma_mt mt = { .threads = threads, .block_size = 4096u << vrng_below(&r, 8), .preset = preset & 7, .check = LZMA_CHECK_CRC64, .filters = vrng_chance(&r, 1, 2) ? cfg.filters : NULL };
 		if (mt.filters && cfg.filters[cfg.nfilters - 1].id != LZMA_FILTER_LZMA2) mt.filters = NULL;
 		vbuf comp = {0};
+		// a third of the encoder cases: the handle had a first life as a much bigger encoder of the same kind (8 MiB
+		// dictionary, bt4) and is initialised again without lzma_end(); what it holds afterwards is still bounded by
+		// the estimate for the new settings
+		bool second_life = t <= 2 && vrng_chance(&r, 1, 3);
+		if (second_life) {
+			lzma_options_lzma big; lzma_lzma_preset(&big, 6);
+			lzma_filter bf[2] = { { LZMA_FILTER_LZMA2, &big }, { LZMA_VLI_UNKNOWN, NULL } };
+			lzma_mt mtbig = { .threads = 2, .block_size = 1u << 20, .preset = 6, .check = LZMA_CHECK_CRC32 };
+			lzma_ret fr = t == 0 ? lzma_raw_encoder(&s, bf) : (t == 1 ? lzma_easy_encoder(&s, 6, LZMA_CHECK_CRC64) : lzma_stream_encoder_mt(&s, &mtbig));
+			if (fr == LZMA_OK) {
+				uint8_t ob[8192]; size_t n1 = pl.n < 12000 ? pl.n : 12000;
+				s.next_in = pl.p; s.avail_in = n1;
+				for (int it = 0; it < 64 && s.avail_in; ++it) { s.next_out = ob; s.avail_out = sizeof(ob); if (lzma_code(&s, LZMA_RUN) != LZMA_OK) break; }
+				s.next_in = NULL; s.avail_in = 0; s.next_out = NULL; s.avail_out = 0;
+			}
+			hx_count("estimate_second_life_cases", 1);
+		}
 		switch (t) {
 		case 0: what = "raw_encoder"; est = lzma_raw_encoder_memusage(cfg.filters); ret = lzma_raw_encoder(&s, cfg.filters); break;
 		case 1: what = "easy_encoder"; est = lzma_easy_encoder_memusage(preset); ret = lzma_easy_encoder(&s, preset, LZMA_CHECK_CRC32); break;
@@ -799,13 +848,14 @@ dec_spec spec; dec_spec_for(&spec, dk, NULL); spec.file_size = file.n;
 		}
 		if (t <= 2) {
 			if (ret != LZMA_OK || est == UINT64_MAX) { lzma_end(&s); hx_count("estimate_cases_skipped", 1); goto est_done; }
+			if (second_life) alloc_mon_reset_peak(&m);   // from here on: what the re-initialised encoder holds and allocates
 			sc c; memset(&c, 0, sizeof(c)); c.m = &m; c.r = &r;
 			int st = pump(&c, &s, pl.p, pl.n, &comp, false);
 			lzma_end(&s);
 			if (st != S_OK) { snprintf(key, sizeof(key), "estimate-run-failed|%s", what); hx_violation("C09", key, idx, "%s", c.why); goto est_done; }
 			if (m.peak_bytes > est) {
 				snprintf(key, sizeof(key), "estimate-below-allocation|%s", what);
-				hx_violation("C09", key, idx, "%s_memusage = %" PRIu64 " but peak allocation was %" PRIu64 " bytes; cfg=%s preset=%u threads=%u block_size=%" PRIu64, what, est, m.peak_bytes, cfg.desc, preset, threads, (uint64_t)mt.block_size);
+				hx_violation("C09", key, idx, "%s_memusage = %" PRIu64 " but peak allocation was %" PRIu64 " bytes%s; cfg=%s preset=%u threads=%u block_size=%" PRIu64, what, est, m.peak_bytes, second_life ? " (handle re-initialised after a first life as a preset-6 encoder)" : "", cfg.desc, preset, threads, (uint64_t)mt.block_size);
 			}
 			hx_max("max_peak_to_estimate_permille", est ? m.peak_bytes * 1000 / est : 0);
 		} else {
